@@ -387,7 +387,7 @@ def start_objects(rng, theme):
         new += [["new", rng.choice(["Field", "Tuple", "BasicCriterion", "ComplexCriterion", "ContainsCriterion",
                                     "BetweenCriterion", "NullCriterion", "BitwiseAndCriterion", "ArithmeticExpression",
                                     "Not", "ExistsCriterion", "ValueWrapper", "Function", "Rollup", "Array", "TupleIn", "Bracket",
-                                    "Negative"])]
+                                    "Negative", "ch.HasAny", "ch.Length", "ch.NotEmpty", "ch.ToFixedString"])]
                 for _ in range(rng.randint(1, 3))]
         new = [["new", "Table:t1"], ["new", "Table:t2"]] + [x for x in new if x[1] not in ("Table:t1", "Table:t2")]
     elif theme == "mixed":
@@ -461,7 +461,10 @@ def gen_history(rng, tab, theme, ncalls):
             recv = rng.choice(themed if rng.random() < 0.8 else cands)
         o = r.U.objs[recv]
         fam = family(o)
-        meths = sorted(tab[qual(o)]["methods"])
+        meths = sorted(x for x in tab[qual(o)]["methods"] if not x.startswith("_"))     # private rows (_with_join) are reached
+                                                                                        # through their public callers
+        if not meths:
+            continue
         if fam == "query":
             if twin:
                 meths = [x for x in meths if x != "join"]           # a chain completes its join at once: q.join(x).on(...)
